@@ -123,9 +123,12 @@ def run(ctx):
     # ---- B. nn_distances: every pattern of {valid, NaN, inf, -inf, 0, negative} up to length 3, random beyond
     atoms = [2.0, 0.5, 8.0, float("nan"), float("inf"), float("-inf"), 0.0, -1.0]
     pats = [list(p) for k in (1, 2, 3) for p in itertools.product(atoms, repeat=k)]
+    # tiny but valid distances (near-duplicate cells, small units of length) must be left alone: no absolute threshold
+    tiny = [3e-9, 2.5e-12, 1e-300]
+    pats += [[t] for t in tiny] + [[3e-9, 0.5], [0.5, 3e-9, float("nan")], [1e-300, 2.0, 0.0], [1e-300, 1.0, -1.0], [2.5e-12, 3e-9, float("inf"), 8.0]]
     for _ in range(200 if ctx.thorough else 40):
         k = rng.randrange(4, 12)
-        pats.append([rng.choice(atoms + [rng.randrange(1, 64) / 16.0]) for _ in range(k)])
+        pats.append([rng.choice(atoms + tiny[:2] + [rng.randrange(1, 64) / 16.0]) for _ in range(k)])
     nn_bad = 0
     for p in pats:
         arr = jnp.asarray(p)
